@@ -9,6 +9,7 @@ Sections
               decoder's split/unpack (trace/_zk.py TraceLoop._process_events)
   c15_rules   rulefile._DNAT/_SNAT/_PASSTHROUGH_FILE_PATTERN, the .pattern text of the three compiled regular
               expressions, rulefile._ANY, firewall.ANY_PORT / ANY_IP
+  c15_ldap    the _schema / sub-schema tables and the combined schema() of Application, CellAllocation, Partition
 """
 import ast
 import importlib
@@ -437,3 +438,67 @@ def _emit_rules():
 
 
 tables.register('c15_rules', _emit_rules)
+
+
+# ---------------------------------------------------------------------------
+# LDAP schemas
+# ---------------------------------------------------------------------------
+LDAP_CLASSES = {
+    'Application': ['_schema', '_svc_schema', '_svc_restart_schema', '_endpoint_schema', '_environ_schema',
+                    '_affinity_schema', '_vring_schema', '_vring_rule_schema'],
+    'CellAllocation': ['_schema', '_assign_schema'],
+    'Partition': ['_schema', '_limit_schema'],
+}
+
+
+def _type_code(t, what):
+    if t is None or t is str:
+        return 0
+    if t is int:
+        return 1
+    if t is bool:
+        return 2
+    if isinstance(t, list) and len(t) == 1 and t[0] is str:
+        return 3
+    if isinstance(t, list) and len(t) == 1 and t[0] is int:
+        return 4
+    if t is dict:
+        return 5
+    raise TranslatorError('%s: unsupported field type %r' % (what, t))
+
+
+def ldap_tables():
+    m = _import('treadmill.admin._ldap')
+    out = []
+    for cname, attrs in LDAP_CLASSES.items():
+        cls = getattr(m, cname, None)
+        if cls is None:
+            raise TranslatorError('admin._ldap.%s not found' % cname)
+        tabs = [(a, getattr(cls, a, None)) for a in attrs] + [('schema()', cls.schema())]
+        for aname, tab in tabs:
+            what = '%s.%s' % (cname, aname)
+            if not isinstance(tab, list):
+                raise TranslatorError('%s is not a list' % what)
+            rows = []
+            for row in tab:
+                if not (isinstance(row, tuple) and len(row) == 3 and isinstance(row[0], str)
+                        and (row[1] is None or isinstance(row[1], str))):
+                    raise TranslatorError('%s: unexpected row %r' % (what, row))
+                rows.append((row[0], row[1], _type_code(row[2], what)))
+            out.append((what, rows))
+    return out
+
+
+def _emit_ldap():
+    out = ['(* C15 LDAP schemas: (name, rows (ldap attribute, (object field | None, type code))) ;\n'
+           '   type codes: 0 str, 1 int, 2 bool, 3 [str], 4 [int], 5 dict *)\n']
+    items = []
+    for name, rows in ldap_tables():
+        rs = G.lst(['(%s, (%s, %s))' % (_codes(a), G.opt(f, _codes), G.z(c)) for a, f, c in rows])
+        items.append('(%s, %s)' % (_codes(name), rs))
+    out.append('Definition c15_ldap_schemas : list (list Z * list (list Z * (option (list Z) * Z))) :=\n  %s.\n'
+               % G.lst(items))
+    return ''.join(out)
+
+
+tables.register('c15_ldap', _emit_ldap)
